@@ -135,11 +135,14 @@ theorem mem_fitsRow (fuel : Nat) (ns : Ns) (a : Name) (bs r : List Name)
 
 /-! ### reflection -/
 
-/-- the defs a record names directly: a defined tag name, or a defined conjunct all of whose parts are
-defined tags of the record carrying a Marker -/
+/-- The defs a record names directly - the statement's "defs of its tags" and "every conjunct whose parts are all
+marker tags of the record": `t` is a def of the namespace and
+* `t` is the name of a tag of the record (whatever the tag's value), or
+* `t` is a conjunct name (it contains `-`) and EVERY dash-separated part of it is a tag of the record whose value
+  is a Marker.  Whether a part has a def of its own plays no role. -/
 def Seed (g : Defs) (r : Rec) (t : Name) : Prop :=
-  (defined g t = true ∧ ∃ m, (t, m) ∈ r) ∨
-  (defined g t = true ∧ isConjunct t = true ∧ ∀ p ∈ splitDash t, defined g p = true ∧ (p, true) ∈ r)
+  defined g t = true ∧
+    ((∃ m, (t, m) ∈ r) ∨ (isConjunct t = true ∧ ∀ p ∈ splitDash t, (p, true) ∈ r))
 
 theorem mem_tagDefs (ns : Ns) (r : Rec) (t : Name) :
     t ∈ tagDefs ns r ↔ (defined ns.defs t = true ∧ ∃ m, (t, m) ∈ r) := by
@@ -155,36 +158,34 @@ theorem mem_tagDefs (ns : Ns) (r : Rec) (t : Name) :
   · rintro ⟨hd, m, hm⟩
     exact ⟨(t, m), hm, by simp [hd]⟩
 
-theorem mem_markerTags (ns : Ns) (r : Rec) (t : Name) :
-    t ∈ markerTags ns r ↔ (defined ns.defs t = true ∧ (t, true) ∈ r) := by
+/-- `markers` = the Marker-valued tags of the record, defined or not -/
+theorem mem_markerTags (r : Rec) (t : Name) : t ∈ markerTags r ↔ (t, true) ∈ r := by
   unfold markerTags
   rw [mem_extendSet]
   simp only [List.not_mem_nil, false_or, List.mem_filterMap]
   constructor
   · rintro ⟨⟨k, m⟩, hkm, h⟩
-    by_cases hk : (defined ns.defs k && m) = true
-    · simp only [hk, if_true, Option.some.injEq] at h
+    cases m with
+    | true =>
+      simp only [if_true, Option.some.injEq] at h
       subst h
-      simp only [Bool.and_eq_true] at hk
-      obtain ⟨h1, h2⟩ := hk
-      subst h2
-      exact ⟨h1, hkm⟩
-    · simp [hk] at h
-  · rintro ⟨hd, hm⟩
-    exact ⟨(t, true), hm, by simp [hd]⟩
+      exact hkm
+    | false => simp at h
+  · intro hm
+    exact ⟨(t, true), hm, by simp⟩
 
 theorem mem_seeds (r : Rec) (t : Name) :
-    t ∈ tagDefs (make rows) r ++ findConjuncts (make rows) (markerTags (make rows) r) ↔
+    t ∈ tagDefs (make rows) r ++ findConjuncts (make rows) (markerTags r) ↔
       Seed (make rows).defs r t := by
   rw [List.mem_append, mem_tagDefs, mem_findConjuncts]
   unfold Seed
   constructor
-  · rintro (h | ⟨h1, h2, h3⟩)
-    · exact Or.inl h
-    · exact Or.inr ⟨h1, h2, fun p hp => (mem_markerTags _ _ _).1 (h3 p hp)⟩
-  · rintro (h | ⟨h1, h2, h3⟩)
-    · exact Or.inl h
-    · exact Or.inr ⟨h1, h2, fun p hp => (mem_markerTags _ _ _).2 (h3 p hp)⟩
+  · rintro (⟨h1, h2⟩ | ⟨h1, h2, h3⟩)
+    · exact ⟨h1, Or.inl h2⟩
+    · exact ⟨h1, Or.inr ⟨h2, fun p hp => (mem_markerTags _ _).1 (h3 p hp)⟩⟩
+  · rintro ⟨h1, h2 | ⟨h2, h3⟩⟩
+    · exact Or.inl ⟨h1, h2⟩
+    · exact Or.inr ⟨h1, h2, fun p hp => (mem_markerTags _ _).2 (h3 p hp)⟩
 
 theorem findSupertypesFromDefs_spec (fuel : Nat) (hf : fuelFor (make rows).defs ≤ fuel) :
     ∀ (ds acc : List Name), ∃ res, findSupertypesFromDefs fuel (make rows) ds acc = .ok res ∧
@@ -217,7 +218,7 @@ theorem reflect_spec (fuel : Nat) (hf : fuelFor (make rows).defs ≤ fuel) (r : 
     ∃ res, reflect fuel (make rows) r = .ok res ∧
       ∀ x, x ∈ res ↔ ∃ t, Seed (make rows).defs r t ∧ ReflTransGen (Edge (make rows).defs) t x := by
   obtain ⟨res, h1, h2⟩ := findSupertypesFromDefs_spec rows fuel hf
-    (tagDefs (make rows) r ++ findConjuncts (make rows) (markerTags (make rows) r)) []
+    (tagDefs (make rows) r ++ findConjuncts (make rows) (markerTags r)) []
   refine ⟨res, h1, fun x => ?_⟩
   rw [h2 x]
   simp only [List.not_mem_nil, false_or]
@@ -250,8 +251,7 @@ theorem anyFits_spec (fuel : Nat) (hf : fuelFor (make rows).defs ≤ fuel) (base
         · have := h2.2 h; cases this
         · exact ⟨e, he, h⟩
 
-theorem seed_defined {g : Defs} {r : Rec} {t : Name} (h : Seed g r t) : defined g t = true := by
-  rcases h with h | h <;> exact h.1
+theorem seed_defined {g : Defs} {r : Rec} {t : Name} (h : Seed g r t) : defined g t = true := h.1
 
 theorem edge_target_defined {g : Defs} {a b : Name} (h : ReflTransGen (Edge g) a b) (ha : defined g a = true) :
     defined g b = true := by
